@@ -34,6 +34,7 @@ KEYTEXT = "cache-shared-across-servers:different (org, fid) rendering to the sam
 STEPS = {"exists": "SExists", "openread": "SOpenRead", "net": "SNet", "mkstemp": "SMkstemp", "write": "SWrite", "flush": "SFlush", "fsync": "SFsync",
          "close": "SClose", "replace": "SReplace", "opentrunc": "SOpenTrunc", "kill": "SNone", "spawn": "SNone"}
 URLS = ["https://fi0.example/ofx", "https://fi1.example/ofx"]
+SVC = "https://svc.example/bank/%s"
 
 
 def translate():
@@ -82,9 +83,11 @@ class Gen:
         self.last[u] = pid
         return ["profile", pid]
 
-    def call(self, cfg, word, kill_at=None, new_client=None, must=None, rank=None):
+    def call(self, cfg, word, kill_at=None, new_client=None, must=None, rank=None, via="profile"):
+        """via: "profile" = request_profile() itself; "stmt" = the front door request_statements(), which fetches the profile through
+        _get_service_urls() and then posts the statement to the URL that profile advertises."""
         return {"cfg": list(cfg), "b": self.behaviour(word, cfg, rank), "word": word, "kill_at": kill_at,
-                "new_client": self.rng.random() < 0.5 if new_client is None else new_client, "must": must}
+                "new_client": self.rng.random() < 0.5 if new_client is None else new_client, "must": must, "via": via}
 
     def seq(self, *calls):
         for c in calls:
@@ -100,18 +103,25 @@ WORDS = ["newer", "same", "older", "uptodate", "errstatus", "garbage", "transpor
 CFG0 = (0, 1, 1)
 
 
-def gen_sequences(rng, maxlen_all, n_sampled, sampled_len):
+def gen_sequences(rng, maxlen_all, n_sampled, sampled_len, frontdoor_len=2):
     out = []
+    via = lambda: "stmt" if rng.random() < 0.35 else "profile"
     for n in range(1, maxlen_all + 1):
         for ws in itertools.product(WORDS, repeat=n):
             g = Gen(rng, "seq")
-            g.seq(*[g.call(CFG0, w) for w in ws])
+            g.seq(*[g.call(CFG0, w, via=via()) for w in ws])
             out.append(g.case(words=list(ws)))
     for _ in range(n_sampled):
         ws = [rng.choice(WORDS) for _ in range(rng.choice(sampled_len))]
         g = Gen(rng, "seq")
-        g.seq(*[g.call(CFG0, w) for w in ws])
+        g.seq(*[g.call(CFG0, w, via=via()) for w in ws])
         out.append(g.case(words=ws))
+    # every call through the front door request_statements(): a newer profile first, then every behaviour sequence
+    for n in range(1, frontdoor_len + 1):
+        for ws in itertools.product(WORDS, repeat=n):
+            g = Gen(rng, "seq-frontdoor")
+            g.seq(*[g.call(CFG0, w, via="stmt") for w in ("newer", "newer") + ws])
+            out.append(g.case(words=["newer", "newer"] + list(ws)))
     return out
 
 
@@ -133,7 +143,7 @@ def gen_crashes(rng):
     return out
 
 
-def gen_deaths(rng, kmax=14):
+def gen_deaths(rng, kmax=18):
     """REAL process death (a subprocess that os._exit()s, so no exception handler, context manager or atexit hook runs and no buffer
     is flushed) right after the k-th file primitive that returns once the server's answer is in - whatever primitives the
     implementation uses - from an EMPTY cache directory and from a filled one; then a new client in a new process reads the cache."""
@@ -219,7 +229,7 @@ def build_profiles(case):
     """real documents of the case's profiles; the length is a function of the length RANK alone (the date's zone text has 8 or 11
     characters and appears twice: compensated by the padding), so that in-place overwrites splice at the model's offsets."""
     table = {}
-    mk = lambda n, tag, pad: H.make_profile(n, [("bank", "https://svc.example/bank", False)], tag=tag, pad=pad)
+    mk = lambda n, tag, pad: H.make_profile(n, [("bank", SVC % tag, False)], tag=tag, pad=pad)      # each profile advertises its own service URL
     base = len(mk(0, "000", 0))
     for pid, p in case["profiles"].items():
         want = base + 6 + 7 * p["len"]
@@ -294,7 +304,14 @@ def run_death_case(case, workdir):
     with open(body_file, "wb") as f:
         f.write(table[2])
     env = {k: os.environ[k] for k in ("XDG_DATA_HOME", "XDG_CONFIG_HOME", "XDG_CACHE_HOME", "HOME")}
-    rc, out = H.run_death_child({"env": env, "datadir": workdir, "body_file": body_file, "url": url, "cfg": cfg, "k": case["k"]}, workdir)
+    # the system temp directory on ANOTHER file system than the cache directory (a cross-device move copies over the live file);
+    # where the machine has no second writable file system, cross-directory renames fail with EXDEV in the child instead
+    xdev = H.other_device_dir(cachedir if os.path.isdir(cachedir) else workdir, "c15d")
+    try:
+        rc, out = H.run_death_child({"env": env, "datadir": workdir, "body_file": body_file, "url": url, "cfg": cfg, "k": case["k"],
+                                     "tmpdir": xdev, "fake_exdev": xdev is None}, workdir)
+    finally:
+        if xdev: shutil.rmtree(xdev, ignore_errors=True)
     if rc not in (0, 77):
         raise RuntimeError("process-death child failed (%d): %s" % (rc, out[-1500:]))
     after = open(path, "rb").read() if os.path.exists(path) else None
@@ -342,6 +359,7 @@ def run_case(case, workdir):
     results = {}                     # call -> ("ok", bytes) | ("reject"/"crash", name) | None (killed)
     asked = []                       # (call, n or None) in order
     asked_text = {}                  # call -> the DTPROFUP text it sent
+    stmt_url = {}                    # front-door call -> where its statement request went
     sent = {}                        # url -> [pid] delivered with status 0, in order
     sent_key = {}                    # (url, cache key) -> [pid]: what that server sent to clients of that institution (baseline reset after a crash / a race)
     fails = []
@@ -357,6 +375,9 @@ def run_case(case, workdir):
 
     def responder(rq):
         n = world.tid_of[threading.get_ident()]
+        if b"<PROFRQ>" not in (rq.body or b""):      # the statement request of a front-door call: no step of the cache protocol
+            stmt_url[n] = rq.url
+            return H.Resp(body=b"STATEMENT")
         world.step("net")
         c = calls[n]
         try:
@@ -385,8 +406,15 @@ def run_case(case, workdir):
         world.register(n)
         try:
             cl = client_for(c)
-            r = cl.request_profile()
-            results[n] = ("ok", r.read())
+            if c.get("via") == "stmt":
+                cl.bankid = "123456789"
+                cl.request_statements("pw-1-secret", L.Client.StmtRq(acctid="1", accttype="CHECKING")).read()
+                by_url = {SVC % ("%03d" % pid): data for pid, data in table.items()}
+                # the profile the call worked with = the one whose service URL the statement went to
+                results[n] = ("ok", by_url.get(stmt_url.get(n), b"statement sent to %s" % str(stmt_url.get(n)).encode()))
+            else:
+                r = cl.request_profile()
+                results[n] = ("ok", r.read())
         except H.HarnessKill:
             results[n] = None
         except Exception as e:
@@ -397,6 +425,21 @@ def run_case(case, workdir):
 
     events = []                      # model events, aligned with world.log afterwards
     whole = lambda data: data is None or data in ids
+    import tempfile
+    saved_tmp = (tempfile.tempdir, os.environ.get("TMPDIR"))
+    xdev = H.other_device_dir(cachedir, "c15")        # the system temp directory on another file system than the cache, if this machine has one
+    if xdev:
+        tempfile.tempdir = xdev; os.environ["TMPDIR"] = xdev
+    try:
+        return _run_case_body(case, world, responder, do_call, calls, results, asked, asked_text, sent, sent_key, ids, table, fails, fail, whole, cachedir)
+    finally:
+        tempfile.tempdir = saved_tmp[0]
+        if saved_tmp[1] is None: os.environ.pop("TMPDIR", None)
+        else: os.environ["TMPDIR"] = saved_tmp[1]
+        if xdev: shutil.rmtree(xdev, ignore_errors=True)
+
+
+def _run_case_body(case, world, responder, do_call, calls, results, asked, asked_text, sent, sent_key, ids, table, fails, fail, whole, cachedir):
     with H.FakeNet(responder) as net, world:
         for ph in case["phases"]:
             log0 = len(world.log)
